@@ -334,7 +334,7 @@ def jobs(tier):
             add("h_release", op=op, S=S_, N=2, mode="close", X=(0, 3), fl=fl, close_susp=1, **kw)
         # mixed argument kinds: a sync iterable first, the async iterator after it
         for op in ("chain", "zip", "zip_longest", "map", "merge", "compress"):
-            for first in ("list", "iter"):
+            for first in ("list", "iter", "bare"):  # bare: an async iterator without aclose in front of a closeable one
                 add("h_release", op=op, S=2, N=2, mode="fault", X=(5, 5), Y=(1, 8), Z=(0, 1), fls=[first, fl, fl, fl])
                 add("h_release", op=op, S=2, N=2, mode="close", X=(0, 3), fls=[first, fl, fl, fl])
         for op in ("zip", "zip_longest", "chain", "merge"):
